@@ -217,8 +217,8 @@ var props = map[string]*propCfg{
 		ID: "C12", Level: "model_checking", Exhaustive: true,
 		Rule:        "TLC enumerates the matrix of 27 expression forms (column, nested path, missing key, number / string / boolean / NULL literals, + / % ~ -, CASE with and without ELSE, CONCAT, ARRAY, IF, FIRST, TO_UPPER, UNWIND, object and array columns, select-list subquery plain and aggregate, ASYNC and SCOPED calls, nested calls) x 8-11 clause positions (select item, next to *, WHERE operand, CASE arm, function argument, IF argument, HAVING, DISTINCT, ORDER BY key, comparison operand, IN list) plus 17 statement-level forms (GROUP BY aggregates, group star, whole-table aggregates, CTE, derived table, UNION, EXISTS, IN subquery, ORDER BY + LIMIT/OFFSET, SPIN / SPINASYNC, several ASYNC items) x tables of 1..MaxRows rows, and checks that the specification's results are plain values and a function of (query, document). Each case is executed: reflection walk of the real result (only maps, slices, strings, booleans, nil, Go numbers that are finite; no pointer, func, named engine type, cycle, \"<-\" key), encoding/json round trip, and repetitions on equal inputs (2; 5 when ORDER BY leaves ties; 8 with ASYNC calls or NULL join keys): the identical sequence, or - only when grouping or a join is involved and ORDER BY does not determine a total order - the equal multiset. Statement forms include DISTINCT + ORDER BY with ties (with and without LIMIT) and joins on a table whose key is NULL / missing in some rows. Non-trivial: a non-empty successful result; distinct = distinct (document, query).",
 		Assumptions: baseAssumptions,
-		Quick:       []legCfg{mc("matrix", "MC_C12", "C12_quick.cfg", 10*time.Minute)},
-		Thorough:    []legCfg{mc("matrix", "MC_C12", "C12_thorough.cfg", 30*time.Minute), mc("compose", "MC_C07", "C11_C07.cfg", 10*time.Minute), mc("group", "MC_C03", "C11_C03.cfg", 10*time.Minute)},
+		Quick:       []legCfg{mc("matrix", "MC_C12", "C12_quick.cfg", 10*time.Minute), {Kind: "exec", Name: "texts", Mode: "texts", Timeout: 5 * time.Minute}},
+		Thorough:    []legCfg{mc("matrix", "MC_C12", "C12_thorough.cfg", 30*time.Minute), mc("compose", "MC_C07", "C11_C07.cfg", 10*time.Minute), mc("group", "MC_C03", "C11_C03.cfg", 10*time.Minute), {Kind: "exec", Name: "texts", Mode: "texts", Timeout: 5 * time.Minute}},
 	},
 	"C04": {
 		ID: "C04", Level: "model_checking", Exhaustive: true,
